@@ -173,3 +173,26 @@ def real_makeup(req):
 OPS = {'bindcall': real_bindcall, 'bindcallsig': real_bindcallsig, 'deccall': real_deccall, 'deccallm': real_deccall,
        'prepare': real_prepare, 'startnames': real_names, 'endnames': real_names, 'autonames': real_names,
        'makeup': real_makeup}
+
+
+# ----------------------------------------------------------------------------- functools.partial (C19)
+def make_partial(ps, n, kw):
+    f = core.make_def(tuple(ps), body=ret_body(ps) + '  # %d' % 0)
+    core.register_callable(f, 1)
+    p = functools.partial(f, *[100 + i for i in range(n)], **{k: core.dflt_obj(v) for k, v in kw})
+    core.register_callable(p, 2)
+    return f, p
+
+
+def real_partialsig(req):
+    import sigtools
+    _, n, kw, ps = req
+    f, p = make_partial(ps, n, kw)
+    r1 = core.run_real(signatures.signature, p)
+    r2 = core.run_real(sigtools.signature, p)
+    if r1 != r2:
+        return ('ok', ('plain-and-auto-differ', r1, r2), (), (), None, 'e', ())
+    return r1
+
+
+OPS['partialsig'] = real_partialsig
